@@ -692,6 +692,8 @@ def _gen_structure(op):
          [[[0, 1], W('int', '2')], [[3], W('int', '1')]], 'Gemeinderat — 選挙'),
         ([['end', False, 'str'], ['3X', False, 'str'], ['ballots=blt', False, 'str'], ['0', False, 'str'], ['title', False, 'str']],
          [[[0], W('int', '1')], [[1, 0], W('int', '1')], [[3], W('int', '2')]], 'end'),
+        ([['', False, 'str'], ['Bo', False, 'str']], [[[0, 1], W('int', '2')], [[0], W('int', '1')]], ''),
+        ([['', True, 'person'], ['Bo', False, 'person']], [[[1, 0], W('int', '2')]], None),
         (S3, [[[0, 1], W('int', '-3')], [[1], W('int', '2')]], 'Negative int'),
         (S3, [[[0, 1], W('frac', '-1/2')], [[1], W('int', '2')]], 'Negative fraction'),
         (S3, [[[0, 1], W('dec', '-0.5')], [[1], W('int', '2')]], 'Negative decimal'),
